@@ -37,6 +37,9 @@ pub struct Case {
     /// 0 WebAuthn client, 1 CTAP2 level, 2 U2F
     pub level: u8,
     pub challenge: Vec<u8>,
+    /// capability of the store: 0 full, 1 forced discoverable, 2 non-discoverable credentials only
+    #[serde(default)]
+    pub disc: u8,
 }
 
 /// all byte strings hidden in a rendering: the rendering itself, decoded decimal lists, hex runs
@@ -240,7 +243,8 @@ pub fn check(ctx: &mut Ctx, c: &Case) -> Result<(), String> {
         coset::Label::Int(i) => *i,
         _ => 0,
     });
-    let store = RefStore::with(Disc::Full, vec![imported]);
+    let store = RefStore::with([Disc::Full, Disc::ForcedDiscoverable, Disc::OnlyNonDiscoverable][c.disc as usize % 3], vec![imported]);
+    ctx.class(&format!("store capability {:?}", [Disc::Full, Disc::ForcedDiscoverable, Disc::OnlyNonDiscoverable][c.disc as usize % 3]));
     let uv = ScriptedUv::new(if c.verified { UvScript::verified() } else { UvScript::present_only() });
     let cfg = AuthCfg { hmac: c.hmac, counter: c.counter, ..Default::default() };
     let auth = cer::build_authenticator(store.clone(), uv, &cfg);
@@ -322,7 +326,7 @@ pub fn check(ctx: &mut Ctx, c: &Case) -> Result<(), String> {
                 pub_key_cred_params: cer::params(&[-7]),
                 exclude_list: None,
                 extensions: (c.prf_reg > 0).then(|| make_credential::ExtensionInputs { hmac_secret: Some(true), hmac_secret_mc: None, prf: Some(salts(c.prf_reg)) }),
-                options: make_credential::Options { rk: true, up: true, uv: c.uv_req % 3 != 2 },
+                options: make_credential::Options { rk: c.disc % 3 != 2 && c.site % 2 == 0, up: true, uv: c.uv_req % 3 != 2 },
                 pin_auth: None,
                 pin_protocol: None,
             };
@@ -370,7 +374,7 @@ pub fn check(ctx: &mut Ctx, c: &Case) -> Result<(), String> {
                 pub_key_cred_params: cer::params(&[-7]),
                 exclude_list: None,
                 extensions: None,
-                options: make_credential::Options { rk: true, up: true, uv: c.uv_req % 3 != 2 },
+                options: make_credential::Options { rk: c.disc % 3 != 2 && c.site % 2 == 0, up: true, uv: c.uv_req % 3 != 2 },
                 pin_auth: None,
                 pin_protocol: None,
             };
@@ -478,7 +482,7 @@ fn case() -> impl Strategy<Value = Case> {
         prop_oneof![3 => Just(0u8), 2 => Just(1u8), 1 => Just(2u8)],
         proptest::collection::vec(any::<u8>(), 0..40),
     )
-        .prop_map(|(hmac, counter, verified, uv_req, site, prf_reg, prf_auth, prf_input, extra, level, challenge)| Case { hmac, counter, verified, uv_req, site, prf_reg, prf_auth, raw_salt: if challenge.len() % 3 == 0 { (challenge.len() / 3) as u8 } else { 0 }, prf_input, extra, level, challenge })
+        .prop_map(|(hmac, counter, verified, uv_req, site, prf_reg, prf_auth, prf_input, extra, level, challenge)| Case { hmac, counter, verified, uv_req, site, prf_reg, prf_auth, raw_salt: if challenge.len() % 3 == 0 { (challenge.len() / 3) as u8 } else { 0 }, prf_input, extra, level, disc: (site / 16) % 3, challenge })
 }
 
 pub fn run(ctx: &mut Ctx) {
